@@ -135,6 +135,9 @@ func c20Gen(r *Rng, id int) c20Hist {
 			if o.Typ == 1 && r.Chance(30) {
 				o.Den = 1
 			}
+			if r.Chance(25) { // the trigger price names ANOTHER denom than the order's trading asset (validation allows it): the order's own asset decides
+				o.Tgt = 1
+			}
 			if r.Chance(35) { // sized against the pool: the open can fail after the collateral moved
 				o.Amt = []string{"14000000000", "9000000000", "20000000000", "3000000000"}[r.Intn(4)]
 				o.Lev = []string{"6", "10", "3", "5"}[r.Intn(4)]
@@ -937,7 +940,11 @@ func (x *c20Run) exec(op c20Op) {
 		if op.Pool == 1 {
 			pool = 999
 		}
-		msg := &tstypes.MsgCreatePerpetualOpenOrder{OwnerAddress: sender, TriggerPrice: tstypes.TriggerPrice{TradingAssetDenom: ast, Rate: trig},
+		trigDenom := ast
+		if op.Tgt == 1 {
+			trigDenom = USDC
+		}
+		msg := &tstypes.MsgCreatePerpetualOpenOrder{OwnerAddress: sender, TriggerPrice: tstypes.TriggerPrice{TradingAssetDenom: trigDenom, Rate: trig},
 			Collateral: sdk.Coin{Denom: den, Amount: a}, TradingAsset: ast, Position: tstypes.PerpetualPosition(op.Typ), Leverage: dec(op.Lev),
 			TakeProfitPrice: tp, StopLossPrice: dec("0"), PoolId: pool}
 		// environment of the handler: pool known, no open position of the same kind, estimation accepts
